@@ -697,7 +697,22 @@ class SeqMixin:
             return gl.fv
         g = gl.gen
         if len(g.parts) != 1:
-            raise Unsupported('indexing a chained generator list')
+            # a chain of generators is the concatenation of their lists: one view per part, indices offset by the
+            # lengths of the parts before
+            if not g.parts:
+                gl.fv = {'n': 0, 'read': lambda i: py_raise('IndexError', 'list index out of range')}
+                return gl.fv
+            subs = [self.fview(GenList(Gen([part]))) for part in g.parts]
+            offs = [0]
+            for sv in subs:
+                offs.append(concretize(zint(offs[-1]) + zint(sv['n'])))
+            def read_chain(i, subs=subs, offs=offs):
+                r = subs[-1]['read'](concretize(zint(i) - zint(offs[len(subs) - 1])))
+                for q in range(len(subs) - 2, -1, -1):
+                    r = self.merge(zint(i) < zint(offs[q + 1]), subs[q]['read'](concretize(zint(i) - zint(offs[q]))), r)
+                return r
+            gl.fv = {'n': offs[-1], 'read': read_chain}
+            return gl.fv
         p = g.parts[0]
         vs = p.vars
         n = self.fresh_int('n')
